@@ -29,16 +29,17 @@ def configs(tier):
             dict(Remotes={1, 2}, KindOf="KindV", Keys={1}, MaxPush=2, MaxSpecial=1),
         ]
     return [
-        dict(Remotes={1}, KindOf="KindV", Keys={1}, MaxPush=4, MaxSpecial=4),
+        dict(Remotes={1}, KindOf="KindV", Keys={1}, MaxPush=4, MaxSpecial=3),
         dict(Remotes={1, 2}, KindOf="KindV", Keys={1}, MaxPush=2, MaxSpecial=2),
         dict(Remotes={1}, KindOf="KindM", Keys={1, 2}, MaxPush=3, MaxSpecial=2),
         dict(Remotes={1}, KindOf="KindS", Keys={1}, MaxPush=4, MaxSpecial=3),
-        dict(Remotes={1}, KindOf="KindM", Keys={1, 2}, MaxPush=4, MaxSpecial=2),
         dict(Remotes={1}, KindOf="KindVS", Keys={1}, MaxPush=3, MaxSpecial=2),
         dict(Remotes={1}, KindOf="KindVM", Keys={1}, MaxPush=3, MaxSpecial=2),
-        dict(Remotes={1, 2}, KindOf="KindV", Keys={1}, MaxPush=3, MaxSpecial=3),
-        dict(Remotes={1, 2}, KindOf="KindS", Keys={1}, MaxPush=3, MaxSpecial=2),
-        dict(Remotes={1, 2}, KindOf="KindM", Keys={1}, MaxPush=3, MaxSpecial=2),
+        dict(Remotes={1, 2}, KindOf="KindS", Keys={1}, MaxPush=2, MaxSpecial=2),
+        dict(Remotes={1, 2}, KindOf="KindM", Keys={1}, MaxPush=2, MaxSpecial=2),
+        # model checking only (the state graph is too large to dump and replay edge by edge)
+        dict(Remotes={1, 2}, KindOf="KindV", Keys={1}, MaxPush=3, MaxSpecial=3, b3_only=True),
+        dict(Remotes={1, 2}, KindOf="KindS", Keys={1}, MaxPush=3, MaxSpecial=2, b3_only=True),
     ]
 
 
@@ -126,6 +127,16 @@ def run_k(tier, out, wd, prop="C04", only=None):
         if only and k["KindOf"] not in only:
             continue
         kinds = KINDS[k["KindOf"]]
+        if k.get("b3_only"):
+            c = mk_cfg(k, dict(invariants=[i for i in INVS if i != "InitDump"], view="View"))
+            r = core.run_tlc("MC_WriteTask", c, os.path.join(wd, "mc%d" % ci), workers=8, timeout=3600, xmx="12g")
+            if not r.ok:
+                raise core.ToolError("WriteTask.tla: M violates P in TLC (%s %s) for %s:\n%s" % (r.status, r.violated, k, r.counterexample[-3000:]))
+            stats["states"] += r.distinct
+            stats["transitions"] += r.generated
+            core.log("[K-WriteTask] %s (model checking only): %d states, %d transitions, invariants hold" % (
+                k["KindOf"] + "x%d" % len(k["Remotes"]), r.distinct, r.generated))
+            continue
         c = mk_cfg(k, dict(invariants=INVS, view="View", action_constraints=["EdgeDump"]))
         r = core.run_tlc("MC_WriteTask", c, os.path.join(wd, "mc%d" % ci), workers=1, timeout=1800, xmx="8g")
         if not r.ok:
